@@ -249,6 +249,23 @@ def run(ctx):
     sts = ex5['normal']
     bad = [s for s in sts if s[2] or s[1] in ('yes', False)]
     ctx.check(bool(sts) and not bad, 'R5', 'ActorImpl::yield: after the context switch, suspended_ is tested and a suspended actor yields again', where(yf), 'exit states %s' % sorted(sts, key=repr), key='R5|yield|re-yield')
+    # a dying actor never goes back to its code: after every return of the context switch, the first thing tested is wannadie(), and its true
+    # edge ends in Context::stop (the recursive yield() of a suspended actor carries the same obligation on its own paths)
+    def try5b(st, e):
+        if e.kind == 'call' and e.q.endswith('Context::suspend'):
+            return 'need'
+        if st == 'need' and e.kind == 'branch' and e.atom[0] == 'truthy' and e.atom[1][0] == 'call' and e.atom[1][1].endswith('::wannadie') and e.atom[1][2] == ('this',):
+            return 'must_stop' if e.pol else 'ok'
+        if st == 'must_stop' and e.kind == 'call' and e.q.endswith('Context::stop'):
+            return 'stopped'
+        if st == 'need' and e.kind == 'call' and e.q == AC + '::yield':
+            return 'ok'
+        return None
+    ex5b = abstract_run(A, yf, 'start', try5b)
+    leak = sorted(set(s for s in (ex5b['normal'] | ex5b['throw']) if s in ('need', 'must_stop')))
+    ctx.check(bool(ex5b['normal']) and not leak, 'R5', 'ActorImpl::yield: after every return of context_->suspend(), wannadie() is tested first and a dying actor is stopped (runs its cleanup) instead of returning', where(yf),
+              'yield() can return to the actor\'s code (or throw into it) %s' % ('without testing wannadie() after the last context switch' if 'need' in leak else 'although wannadie() held after the last context switch') if leak else
+              'exit states %s' % sorted(ex5b['normal'] | ex5b['throw']), key='R5|yield|dying actor stopped')
     sf = P.fn(K + 'activity::SleepImpl::finish')
     v = A.view(sf)
     ok = None
